@@ -4,7 +4,8 @@ CONSTANTS
   MustBind = {"sender","parent","round","seed","txns","outputs","state","magicblock"}
   HashInput = {"sender","parent","round","seed","txns","outputs","state","magicblock"}
   KeyInObject = FALSE
+  DupShapes <- ShapesTo4
   MaxSteps = 7
 VIEW MView
-INVARIANTS Binds GenuineAccepted AcceptedOnlyIfIntended
+INVARIANTS Binds GenuineAccepted AcceptedOnlyIfIntended RepeatRejected NeutralRepeatPassesHashSig RepeatAltersUnlessNeutral
 CHECK_DEADLOCK FALSE
